@@ -45,6 +45,7 @@ type Cell struct {
 	Mask     bool
 	Mapper   bool // an ErrorMapper overriding NotFound -> 410 and Internal -> 502
 	Indirect bool // external issuance-chain storage mode
+	Accept   string // Accept request header ("" = none)
 	Verbose  bool // the process runs with klog -v=3 (debug logging on)
 	Bulky    bool // the stored entries are ~30 KiB each, so a reply of a few entries exceeds any ordinary buffer
 }
@@ -72,6 +73,9 @@ var replyFaults = map[string][]string{
 	"get-entry-and-proof": append(append([]string{}, rootGarbles...), "leaf-absent", "leafvalue-empty", "proof-absent", "proof-empty"),
 }
 
+// accepts are Accept request headers a client may send; none of them may change status, masking or SCT handling.
+var accepts = []string{"", "", "application/json", "*/*", "text/html, application/json;q=0.9", "application/json; charset=utf-8"}
+
 func allFaults(ep string) []Fault {
 	var fs []Fault
 	for c := 1; c <= 16; c++ {
@@ -97,6 +101,10 @@ func matrix() []Cell {
 					entryEP := ep == "get-entries" || ep == "get-entry-and-proof"
 					if entryEP || ep == "add-chain" || ep == "add-pre-chain" {
 						out = append(out, Cell{Endpoint: ep, Fault: f, Mask: mask, Mapper: mapper, Indirect: true})
+					}
+					if !mapper {
+						// a client that asks for JSON gets the same statuses and the same masking
+						out = append(out, Cell{Endpoint: ep, Fault: f, Mask: mask, Accept: "application/json"})
 					}
 					if !mapper {
 						// debug logging is a process-wide configuration: every fault again with it switched on
@@ -162,6 +170,7 @@ var errMapper = func(err error) (int, bool) {
 }
 
 type rig struct {
+	concurrent bool // several requests at once: request-log records cannot be attributed by position
 	be    *reflog.Log
 	inst  *ctfex.Instance
 	clock *ctfex.Clock
@@ -510,9 +519,19 @@ type outcome struct {
 	calls    []reflog.Call // backend calls made during this request
 }
 
+// setAccept makes every request of the rig carry that Accept header.
+func (r *rig) setAccept(a string) {
+	if a != "" {
+		r.inst.ReqTweak = func(rq *http.Request) { rq.Header.Set("Accept", a) }
+	}
+}
+
 func (r *rig) do(q request) (o outcome) {
 	nCalls := r.be.NumCalls()
-	nEv := len(r.inst.Spy.Events)
+	nEv := 0
+	if !r.concurrent {
+		nEv = len(r.inst.Spy.Events)
+	}
 	func() {
 		defer func() {
 			if p := recover(); p != nil {
@@ -522,7 +541,7 @@ func (r *rig) do(q request) (o outcome) {
 		rsp := r.inst.Do(context.Background(), q.method, q.path, q.query, q.body)
 		o.status, o.body = rsp.Status, rsp.Body
 	}()
-	if len(r.inst.Spy.Events) > nEv {
+	if !r.concurrent && len(r.inst.Spy.Events) > nEv {
 		o.ev = r.inst.Spy.Events[nEv]
 	}
 	o.calls = r.be.AllCalls()[nCalls:]
@@ -597,6 +616,10 @@ func checkCell(t *testing.T, c Cell) (v harness.Verdict) {
 		v.Class("bulky-entries")
 	}
 	r := newRigB(t, c.Mask, c.Mapper, c.Indirect, c.Bulky)
+	r.setAccept(c.Accept)
+	if c.Accept != "" {
+		v.Class("accept-header:" + c.Accept)
+	}
 	r.arm(c.Endpoint, c.Fault, 0)
 	q := validRequestB(c.Endpoint, 3, c.Fault.Kind == "beyond-tree", c.Bulky)
 	o := r.do(q)
